@@ -89,7 +89,6 @@ public:
     NodeId next_id{0};
     uint32_t next_ip{1};
     int64_t nonce{0};                  // makes hand-built blocks / transactions unique
-    size_t next_cb{0};                 // next unspent mature coinbase of m_coinbase_txns
 
     static TestOpts MakeOpts(const NetOptions& o)
     {
@@ -259,29 +258,44 @@ public:
     static SimCoin OutputOf(const CTransaction& tx, uint32_t n) { return SimCoin{COutPoint(tx.GetHash(), n), tx.vout.at(n)}; }
     static SimCoin OutputOf(const CMutableTransaction& tx, uint32_t n) { return OutputOf(CTransaction(tx), n); }
 
+    // the next coinbase of the active chain (lowest height first) that a block on the current tip may spend; every block of the fixture
+    // and every hand-built block pays its subsidy to the P2PK script of coinbaseKey
+    int next_cb_height{1};
+    CTransactionRef NextMatureCoinbase()
+    {
+        for (int attempt = 0; attempt < 2; ++attempt) {
+            while (next_cb_height + COINBASE_MATURITY <= Tip()->nHeight + 1) {
+                CBlockIndex* pi = AtHeight(next_cb_height++);
+                CBlock b;
+                if (!pi || !cm().m_blockman.ReadBlock(b, *pi)) continue;
+                const CTxOut& o = b.vtx[0]->vout[0];
+                if (o.scriptPubKey == p2pk && o.nValue >= 50 * CENT) return b.vtx[0];
+            }
+            mineBlocks(25);         // (only after thousands of tests on one node)
+        }
+        throw std::runtime_error("netsim: no mature coinbase left");
+    }
     // confirms `n` P2WPKH coins (fan-out transactions spending mature coinbases, mined at once)
     void Fund(int n)
     {
-        std::vector<CMutableTransaction> txs;
+        std::vector<CTransactionRef> txs;
         int made = 0;
         while (made < n) {
-            const int h = (int)next_cb + 1;                 // m_coinbase_txns[i] is the coinbase of height i + 1
-            if (h + COINBASE_MATURITY > Tip()->nHeight + 1) throw std::runtime_error("netsim: no mature coinbase left");
-            const CTransactionRef cb = m_coinbase_txns.at(next_cb++);
+            const CTransactionRef cb = NextMatureCoinbase();
             const int k = std::min(25, n - made);
             CMutableTransaction m; m.version = 2;
             m.vin.emplace_back(COutPoint(cb->GetHash(), 0), CScript(), MAX_BIP125_RBF_SEQUENCE);
             for (int i = 0; i < k; ++i) m.vout.emplace_back((cb->vout[0].nValue - 100000) / k, wpkh);
             SignWpkh(m, 0, cb->vout[0]);
-            txs.push_back(m); made += k;
+            txs.push_back(MakeTransactionRef(m)); made += k;
         }
-        const CBlock b = CreateAndProcessBlock(txs, p2pk);
-        if (Tip()->GetBlockHash() != b.GetHash()) throw std::runtime_error("netsim: funding block not connected");
+        auto sp = OnTip(); sp.txs = txs;
+        const auto b = BuildBlock(sp);
+        if (!SubmitOwn(b) || Tip()->GetBlockHash() != b->GetHash()) throw std::runtime_error("netsim: funding block not connected");
         m_clock += std::chrono::seconds{1};
-        m_coinbase_txns.push_back(b.vtx[0]);
-        for (const auto& m : txs) {
-            funding.push_back(MakeTransactionRef(m));
-            for (uint32_t i = 0; i < m.vout.size(); ++i) coins.push_back(OutputOf(m, i));
+        for (const auto& t : txs) {
+            funding.push_back(t);
+            for (uint32_t i = 0; i < t->vout.size(); ++i) coins.push_back(OutputOf(*t, i));
         }
     }
 
